@@ -38,13 +38,21 @@ func c12VoteSpecs(quick bool) []hapi.ArbSpec {
 		{Name: "2-data-1-arbiter", Members: []hapi.ArbMember{d(1, 1), d(1, 2), arb}, Candidates: []int{0, 2}, Rounds: 1, MaxLoss: 1},
 		{Name: "4-members-weight0-and-arbiter", Members: []hapi.ArbMember{d(1, 1), d(0, 1), d(2, 2), arb}, Candidates: []int{0, 1}, Rounds: 1, MaxLoss: 0},
 	}
+	specs = append(specs,
+		hapi.ArbSpec{Name: "3-data-equal-logs-two-losses", Members: []hapi.ArbMember{d(1, 1), d(1, 1), d(1, 1)}, Candidates: []int{0, 1}, Rounds: 1, MaxLoss: 2},
+		hapi.ArbSpec{Name: "3-data-three-candidates", Members: []hapi.ArbMember{d(1, 1), d(1, 1), d(1, 1)}, Candidates: []int{0, 1, 2}, Rounds: 1, MaxLoss: 0},
+		hapi.ArbSpec{Name: "3-data-two-rounds-one-loss", Members: []hapi.ArbMember{d(1, 1), d(1, 1), d(1, 1)}, Candidates: []int{0, 1}, Rounds: 2, MaxLoss: 1},
+		hapi.ArbSpec{Name: "5-data-mixed", Members: []hapi.ArbMember{d(1, 1), d(1, 2), d(2, 2), d(0, 1), arb}, Candidates: []int{0, 2}, Rounds: 1, MaxLoss: 0},
+		hapi.ArbSpec{Name: "4-data-link-down", Members: []hapi.ArbMember{d(1, 1), d(1, 1), d(1, 1), d(1, 1)}, Candidates: []int{0, 1}, Down: [][2]int{{0, 3}}, Rounds: 1, MaxLoss: 1},
+	)
 	if !quick {
 		specs = append(specs,
-			hapi.ArbSpec{Name: "3-data-equal-logs-two-losses", Members: []hapi.ArbMember{d(1, 1), d(1, 1), d(1, 1)}, Candidates: []int{0, 1}, Rounds: 1, MaxLoss: 2},
-			hapi.ArbSpec{Name: "3-data-three-candidates", Members: []hapi.ArbMember{d(1, 1), d(1, 1), d(1, 1)}, Candidates: []int{0, 1, 2}, Rounds: 1, MaxLoss: 0},
-			hapi.ArbSpec{Name: "3-data-two-rounds-one-loss", Members: []hapi.ArbMember{d(1, 1), d(1, 1), d(1, 1)}, Candidates: []int{0, 1}, Rounds: 2, MaxLoss: 1},
-			hapi.ArbSpec{Name: "5-data-mixed", Members: []hapi.ArbMember{d(1, 1), d(1, 2), d(2, 2), d(0, 3), arb}, Candidates: []int{0, 2}, Rounds: 1, MaxLoss: 0},
-			hapi.ArbSpec{Name: "4-data-link-down", Members: []hapi.ArbMember{d(1, 1), d(1, 1), d(1, 1), d(1, 1)}, Candidates: []int{0, 1}, Down: [][2]int{{0, 3}}, Rounds: 1, MaxLoss: 1},
+			hapi.ArbSpec{Name: "3-data-three-candidates-one-loss", Members: []hapi.ArbMember{d(1, 1), d(1, 1), d(1, 1)}, Candidates: []int{0, 1, 2}, Rounds: 1, MaxLoss: 1},
+			hapi.ArbSpec{Name: "3-data-three-candidates-two-rounds", Members: []hapi.ArbMember{d(1, 1), d(1, 1), d(1, 1)}, Candidates: []int{0, 1, 2}, Rounds: 2, MaxLoss: 0},
+			hapi.ArbSpec{Name: "3-data-two-rounds-two-losses", Members: []hapi.ArbMember{d(1, 1), d(1, 1), d(1, 1)}, Candidates: []int{0, 1}, Rounds: 2, MaxLoss: 2},
+			hapi.ArbSpec{Name: "4-data-three-candidates", Members: []hapi.ArbMember{d(1, 1), d(1, 2), d(1, 2), d(2, 1)}, Candidates: []int{0, 1, 3}, Rounds: 1, MaxLoss: 0},
+			hapi.ArbSpec{Name: "5-data-arbiter-two-losses", Members: []hapi.ArbMember{d(1, 1), d(1, 2), d(2, 2), d(0, 1), arb}, Candidates: []int{1, 2}, Rounds: 1, MaxLoss: 2},
+			hapi.ArbSpec{Name: "3-data-three-rounds", Members: []hapi.ArbMember{d(1, 1), d(1, 1), d(1, 1)}, Candidates: []int{0, 1}, Rounds: 3, MaxLoss: 1},
 		)
 	}
 	return specs
